@@ -44,11 +44,23 @@ class C17(PureCheck):
         for s in CORPUS:
             yield {"op": "any", "s": enc.enc_text(s), "via": 0}
             yield {"op": "any", "s": enc.enc_text(s), "via": 1}
+        for s in CORPUS:
+            yield {"op": "any", "s": enc.enc_text(s), "via": 0, "pre": 1}
+        for k in range(3000 if tier == "quick" else 40000):
+            n = rng.randrange(3, 9)
+            yield {"op": "any", "s": enc.enc_text("".join(rng.choices(ALPHA, weights, k=n))), "via": k % 2, "pre": 1}
 
     def execute(self, inp):
-        from curtsies.formatstring import FmtStr, fmtstr
+        from curtsies.formatstring import FmtStr, fmtstr, Chunk
         ev = dict(inp)
         s = enc.dec_text(inp["s"])
+        if inp.get("pre") and len(s) < 64:
+            # earlier in the process fmtstr() was handed a FmtStr whose plain text is this very string
+            try:
+                fmtstr(FmtStr(Chunk(s)))
+                fmtstr(FmtStr(Chunk(s)), "bold")
+            except Exception:  # noqa
+                pass
         if inp["via"]:
             ev["res"] = fmtlib.enc_res(lambda: FmtStr.from_str(s))
         else:
